@@ -716,7 +716,12 @@ def ex_genmp_spectral(p, seed):
             oke, ens = A.call(compose_qoperations, mp, A.q_state(c, rho))
             out.ops += 1
             if not oke:
-                out.fail("compose:MProcess_State:raises:%s:generated-mode%d:degenerate-diagonal" % (type(ens).__name__, mode), "%s %s on %s: %s" % (tag, p["povm"], sn, A.fmt_exc(ens)))
+                # same configuration class as everywhere else in this module: an outcome of reference probability in
+                # (P_BAND, P_RARE) is the condition of the recorded finding "post state normalised by a small p(x)"
+                pxs = [float(np.real(sum(dv[k] * rho[k, k] for k in range(d)))) for dv in diags]
+                rare = ":rare-outcome" if any(P_BAND < q < P_RARE for q in pxs) else ""
+                out.fail("compose:MProcess_State:raises:%s:generated-mode%d:degenerate-diagonal%s" % (type(ens).__name__, mode, rare),
+                         "%s %s on %s (reference outcome probabilities %s): %s" % (tag, p["povm"], sn, ["%.3g" % q for q in pxs], A.fmt_exc(ens)))
                 continue
             for x, dv in enumerate(diags):
                 px = float(np.real(sum(dv[k] * rho[k, k] for k in range(d))))
